@@ -198,6 +198,7 @@ class Env:
         self.hconn = _real_connect(self.db, timeout=30, isolation_level=None, check_same_thread=False)  # harness-owned, autocommit
         self.hconn.row_factory = sqlite3.Row
         if first:
+            self._create_foreign_workflow()
             self._install_triggers()
             self._create_workflow()
         _Obs.enabled = True
@@ -378,6 +379,30 @@ class Env:
                     return VTask().execute(stage)
             return VSkip()
         return VTask()
+
+    def _create_foreign_workflow(self):
+        """An older, FINISHED execution in the same store whose stages have the same ref_ids as the workflow under test but
+        no requisites, one task each and a different status: every query of the engine is scoped by execution id, so it must
+        be invisible.  A lookup that forgets the scope (ref_id alone, or all rows of a table) picks these rows up first.
+        Stored before the audit triggers exist; never submitted; the model does not know about it."""
+        if self.spec.get("no_foreign"):
+            return
+        from stabilize import StageExecution, TaskExecution, Workflow
+        from stabilize.models.status import WorkflowStatus
+        stages = []
+        for st in self.spec["stages"]:
+            s = StageExecution(ref_id=st["ref"], type="verif_foreign", name=st["ref"], context={"k1": 99, "k2": 99, "k3": 99},
+                               requisite_stage_ref_ids=set(),
+                               tasks=[TaskExecution.create(name="t0", implementing_class="vt_foreign", stage_start=True, stage_end=True)])
+            s.status = WorkflowStatus.SUCCEEDED
+            s.outputs = {"k1": 98, "k4": 98}
+            for t in s.tasks:
+                t.status = WorkflowStatus.SUCCEEDED
+            stages.append(s)
+        wf = Workflow.create(application="verif", name="verif-foreign", stages=stages)
+        wf.status = WorkflowStatus.SUCCEEDED
+        self.store.store(wf)
+        self.foreign_id = wf.id
 
     def _create_workflow(self):
         from stabilize import StageExecution, TaskExecution, Workflow
